@@ -6,6 +6,7 @@ import FsVerif.Proofs.BufExtra
 import FsVerif.Proofs.Fleet
 import FsVerif.Proofs.SlotBind
 import FsVerif.Proofs.CBeltBind
+import FsVerif.Proofs.SlotWake
 namespace FsVerif.Props.C04
 open FsVerif PosStore
 
@@ -61,8 +62,8 @@ theorem fleet_get_side {s : FleetStore} (h : FleetStore.ReachD s) (hq : s.b.getQ
 
 /-! ### both conveyor stores, retrieval side: in every reachable state (every API call and every kernel event: arrivals at the exit,
 interrupts, resumes, the state machine), whenever a retrieval request is waiting every item at the exit is bound to a granted
-retrieval — no request waits while an unreserved item is available.  (The put side of the conveyors depends on the spacing clock
-and, on the continuous conveyor, on the belt pattern; it is decided by the lock-step correspondence and the C04 judge.) -/
+retrieval — no request waits while an unreserved item is available.  (The put side of the slotted conveyor is proved further below; on the continuous conveyor it depends on the belt pattern and is decided
+by the lock-step correspondence and the C04 judge.) -/
 
 theorem slot_get_side (cfg : SlotCfg) (ops : List SlotBelt.Op) :
     let s := SlotBelt.run (SlotBelt.init cfg) ops
@@ -84,6 +85,35 @@ theorem cbelt_get_side (cfg : CCfg) (ops : List CBelt.Op) :
 example : (SlotBelt.run (SlotBelt.init { cap := 2, delay := 1 })
     [.reservePut 0, .put 0 0 { id := 5 }, .ev, .ev, .ev, .ev, .reservePut 0, .put 0 1 { id := 6 }, .ev, .ev, .ev, .ev,
      .reserveGet 1, .reserveGet 2, .reserveGet 3]).getQ ≠ [] := by decide +kernel
+
+/-! ### slotted conveyor, put side.  The admission rule is time dependent (the last item must have entered at least one slot delay ago), so
+"granted at the very instant the store becomes able to serve it" is a statement about the kernel events of that instant: in every reachable
+state in which a space request waits although the belt would admit an item, an event of the CURRENT instant is still pending whose
+processing re-evaluates the queue (the phase-1 timer of the youngest item, the re-trigger event it schedules, an arrival, or — with slot
+delay 0 — the Initialize of the move process).  Hence at the end of every instant no space request waits while the belt admits.
+Proved with the tracking invariant of `Proofs/SlotWake.lean` (pending move events = travelling items, as multisets). -/
+
+theorem slot_put_side (cfg : SlotCfg) (ops : List SlotBelt.Op) :
+    let s := SlotBelt.run (SlotBelt.init cfg) ops
+    s.putQ ≠ [] → s.admits = true → ∃ ev ∈ s.queue, ev.time ≤ s.now ∧ ∀ q, ev.kind = .init q → s.cfg.delay = 0 := by
+  intro s hq ha
+  exact (SlotBelt.run_w ops _ (SlotBelt.init_inv cfg) (SlotBelt.init_w cfg)).wp hq ha
+
+theorem slot_put_side_end_of_instant (cfg : SlotCfg) (ops : List SlotBelt.Op) :
+    let s := SlotBelt.run (SlotBelt.init cfg) ops
+    (∀ ev ∈ s.queue, s.now < ev.time) → s.putQ ≠ [] → s.admits = false := by
+  intro s hfut hq
+  cases ha : s.admits with
+  | false => rfl
+  | true =>
+    obtain ⟨ev, hev, h1, _⟩ := slot_put_side cfg ops hq ha
+    have h1' : ev.time ≤ s.now := h1
+    have := hfut ev hev
+    omega
+
+/-- non-vacuity: a space request waits on a slotted conveyor whose youngest item entered less than one slot delay ago -/
+example : let s := SlotBelt.run (SlotBelt.init { cap := 3, delay := 2 }) [.reservePut 0, .put 0 0 { id := 5 }, .ev, .reservePut 0]
+    s.putQ ≠ [] ∧ s.admits = false ∧ s.queue.map (·.time) = [2] := by decide +kernel
 
 /-! ### non-vacuity: reachable states in which a request IS waiting (the premises are satisfiable): a full positional store
 with a second space request queued, and a BufferStore whose only item is still in its delay while a retrieval waits -/
